@@ -9,7 +9,7 @@ from pathlib import Path
 from vf import core, apci, runner
 from props import c07
 
-LEVEL = "proof"
+LEVEL = "other"
 
 
 def harness():
@@ -366,6 +366,7 @@ def run(ck):
     ]
     ck.rule = ("unit: random operation sequences (enqueue sizes 8..249 equal / two sizes / mixed; next; confirm oldest outstanding; reset-to-waiting; queries; release) for N in {1,2,3,4,8}; "
                "trace: enqueue / activate / acknowledge prefixes / connection loss (peer close, write error, STOPDT+close) / reconnect, k in {1,2,3,12}; non-trivial = distinct script")
+    ck.explanation = "PARTIAL: event-log theorems proved in Coq for every history; the byte-offset ring of MessageQueue is validated by differential execution against the C functions and by an abstract-log oracle on every run, its ring invariant is not proved."
     ck.coq("C06")
     h = harness()
     try:
